@@ -126,8 +126,26 @@ func (x *Exec) callStatic(c *callCtx, callee *ssa.Function, ci *closureInfo) {
 	if x.atCallAsserts(c, callee) {
 		// assertions placed before this call by the contract
 	}
+	if x.prog.contracts != nil {
+		if sfName, ok := x.prog.contracts.binds[name]; ok {
+			if sf := x.prog.contracts.specs[sfName]; sf != nil {
+				env := &Env{x: x, cur: c.st, old: c.st, bound: map[string]Term{}}
+				args := append([]Term{}, c.args...)
+				r, err := x.applySpec(sf, args, env)
+				if err == nil {
+					r.T = c.resTypes[0]
+					c.res = []Term{r}
+					specUsed["bind "+name+" = "+sfName] = true
+					specDoc["bind "+name+" = "+sfName] = "dependency function modelled by the specification function " + sfName
+					return
+				}
+				x.prog.contractErrors = append(x.prog.contractErrors, contractErr{Fn: "bind " + name, Clause: sfName, Err: err.Error()})
+			}
+		}
+	}
 	if h, ok := specTable[name]; ok {
 		if h(c) {
+			specUsed[name] = true
 			return
 		}
 	}
@@ -351,6 +369,7 @@ func (x *Exec) callInvoke(c *callCtx) {
 
 func (x *Exec) callBuiltin(c *callCtx, b *ssa.Builtin) {
 	n, st := c.n, c.st
+	x.atAsserts(c.fr, n, st, "call", []string{b.Name()}, c.instr)
 	switch b.Name() {
 	case "len", "cap":
 		a := c.args[0]
